@@ -25,12 +25,16 @@ import (
 	. "vh/vhlib"
 )
 
+const churnCap = 20 * time.Second
+
 type churnRes struct {
 	kind            poolKind
 	maxConn         uint64
 	workers, cycles int
 	done, refused   int32
-	stuck           int32
+	retried         []string
+	hung            []string // genuine: connection closed, event handled, stream never ended
+	inconclusive    string   // the world did not settle within the cap: the round is repeated, never reported from one run
 	negative        string
 	findings        []finding
 	closes          int
@@ -50,6 +54,9 @@ func runChurn(kind poolKind, maxConn uint64, workers, cycles int, seed uint64) *
 	r := &churnRes{kind: kind, maxConn: maxConn, workers: workers, cycles: cycles}
 	var wg sync.WaitGroup
 	var tokSeq int32 = 1000
+	var mu sync.Mutex
+	var stuck []*lease
+	var victims []api.Connection // connections the closer closed (read after the closer has stopped)
 	stop := make(chan struct{})
 	for g := 0; g < workers; g++ {
 		wg.Add(1)
@@ -78,9 +85,12 @@ func runChurn(kind poolKind, maxConn uint64, workers, cycles int, seed uint64) *
 				} else {
 					sender.AppendHeaders(ctx, &ppFrame{typ: ppRequest, tok: uint32(l.tok)}, true)
 				}
-				// the exchange ends: answered, or reset because its connection was closed
-				if !waitFor(2*time.Second, func() bool { return !l.live() }) {
-					atomic.AddInt32(&r.stuck, 1)
+				// the exchange ends: answered, or reset because its connection was closed.  No verdict here: an exchange
+				// that is still open after a generous cap is looked at after the run (its connection's state decides)
+				if !waitFor(churnCap, func() bool { return !l.live() }) {
+					mu.Lock()
+					stuck = append(stuck, l)
+					mu.Unlock()
 					return
 				}
 				atomic.AddInt32(&r.done, 1)
@@ -115,28 +125,66 @@ func runChurn(kind poolKind, maxConn uint64, workers, cycles int, seed uint64) *
 			if victim != nil {
 				if rng.Pct(50) {
 					victim.Close(api.NoFlush, api.LocalClose)
+					victims = append(victims, victim)
 				} else if la := victim.LocalAddr(); la != nil {
 					if uc := w.up.byRemote(la.String()); uc != nil {
 						uc.c.Close()
+						victims = append(victims, victim) // mosn notices the FIN later: the settle phase waits for it
 					}
 				}
 				r.closes++
 			}
-			if g, c := w.host.HostStats().UpstreamRequestActive.Count(), w.host.HostStats().UpstreamConnectionActive.Count(); (g < 0 || c < 0) && r.negative == "" {
-				r.negative = fmt.Sprintf("upstream_request_active = %d, upstream_connection_active = %d during the run", g, c)
+			// the request gauge has no legitimate transient (incremented before the stream exists for anybody else)
+			if g := w.host.HostStats().UpstreamRequestActive.Count(); g < 0 && r.negative == "" {
+				r.negative = fmt.Sprintf("upstream_request_active = %d during the run", g)
 			}
 		}
 	}()
 	wg.Wait()
 	close(stop)
 	cwg.Wait()
-	// quiescence: every stream has ended; every close event has been handled
+	// quiescence BY EVENTS: every connection that is closed has delivered its close event to the listener registered behind
+	// the pool's own (hookConn.tail), i.e. the pool's handlers have run; every exchange is terminal
+	w.host.mu.Lock()
+	hooks := append([]*hookConn(nil), w.host.hooks...)
+	w.host.mu.Unlock()
+	settled := waitFor(churnCap, func() bool {
+		for _, v := range victims {
+			if v.State() != api.ConnClosed {
+				return false // closed by the upstream a moment ago: mosn has not read the FIN yet
+			}
+		}
+		for _, hc := range hooks {
+			if hc.ClientConnection.State() == api.ConnClosed && !hc.tail.sawClose() {
+				return false
+			}
+		}
+		return true
+	})
 	w.registerNewClients()
-	time.Sleep(2 * time.Millisecond)
 	for _, l := range w.leases {
 		if c := w.byConnID[l.connIDOf()]; c != nil {
 			l.cli = c.idx
 		}
+	}
+	for _, l := range stuck {
+		// grace, again by event: the exchange may have ended while we were settling
+		connClosed := l.cli >= 0 && w.clients[l.cli].closedMosnSide()
+		if waitFor(5*time.Second, func() bool { return !l.live() }) {
+			continue
+		}
+		if connClosed && settled {
+			r.hung = append(r.hung, fmt.Sprintf("stream %d (token %d): its connection %d is closed and the close event was handled by every listener, yet the stream was neither answered nor reset", l.idx, l.tok, l.cli))
+		} else {
+			r.inconclusive = fmt.Sprintf("stream %d (token %d) still open after %v although the upstream answers at once (connection %d, closed: %v)", l.idx, l.tok, churnCap, l.cli, connClosed)
+		}
+	}
+	if !settled {
+		r.inconclusive = fmt.Sprintf("close events still outstanding after %v", churnCap)
+	}
+	if r.inconclusive != "" {
+		r.timeouts = w.timeouts
+		return r // no books verdict on a world that did not settle
 	}
 	fs := &finderState{overlapSeen: map[int]int{}, lostSeen: map[int]bool{}, seen: map[string]bool{}}
 	r.findings = w.check(fs, op{K: "churn"}, w.observe(resNone))
@@ -169,6 +217,11 @@ func c10churn(run *Run) {
 				go func() {
 					defer func() { <-sem; wg.Done() }()
 					r := runChurn(kind, mc, 6, 12, seed)
+					for try := 0; r.inconclusive != "" && try < 2; try++ {
+						first := r.inconclusive
+						r = runChurn(kind, mc, 6, 12, seed+uint64(try)+1)
+						r.retried = append(r.retried, first)
+					}
 					mu.Lock()
 					res = append(res, r)
 					mu.Unlock()
@@ -196,8 +249,14 @@ func c10churn(run *Run) {
 				run.Sum.Distribution["finder:"+sig]++
 			}
 		}
-		if r.stuck > 0 {
-			fail(r.kind.String()+":exchange-never-ended", fmt.Sprintf("%d exchanges were neither answered nor reset within 2 s", r.stuck))
+		for range r.retried {
+			run.Sum.Distribution["churn-round-inconclusive-repeated"]++
+		}
+		for _, h := range r.hung {
+			fail(r.kind.String()+":exchange-never-ended-after-connection-close", h)
+		}
+		if r.inconclusive != "" {
+			fail(r.kind.String()+":churn-did-not-settle-three-times", fmt.Sprintf("three consecutive rounds did not settle: %v; %s", r.retried, r.inconclusive))
 		}
 		if r.negative != "" {
 			fail(r.kind.String()+":gauge-negative", r.negative)
